@@ -173,3 +173,16 @@ CLAIMED['C10'] = ('model_checking',
     'Trusted: TLC, Arrays.tla and the rule-layer conventions for which sides a rule command marks (DESIGN.md C10), Digest.tla for lists, the '
     'concretisers. longtable/tabularx/booktabs not claimed.',
     TECH)
+CLAIMED['C11'] = ('model_checking',
+    'Verbatim.tla: TLC enumerates every body built from up to 3 (thorough 4) chunks of a 22-chunk adversarial catalogue (backslashes, braces, %, '
+    'ligature-like sequences, runs of blanks, tabs, line breaks, ^^-notation, every partial end marker, the command-form end marker) that does '
+    'not contain the complete end marker and checks the collecting machine of VerbatimEnvironment.invoke against the rule (BodyExact, '
+    'RestUntouched, Ends).  Every body is parsed inside a verbatim environment followed by ordinary text: the environment\'s text must be the '
+    'body exactly, the following text processed normally, the context balanced; \\verb is run for 30 delimiters x 11 bodies x star.  '
+    'MathSource.tla: TLC enumerates every formula tree up to depth 2 (scripts, primes, \\frac, \\sqrt[..], \\left..\\right, \\mbox with nested '
+    'math, spacing, user macros) with written and expected token lists; each is parsed in $..$, \\(..\\), \\[..\\], equation and \\textbf{..$..$}; '
+    'node.source and the text handed to MathJax are re-tokenized with the real Tokenizer and compared token for token.',
+    'DESIGN.md#c11',
+    'Trusted: TLC, the chunk catalogue and formula grammar with their expected token lists, the real Tokenizer (bound by C01) used to '
+    're-tokenize. The source reconstruction is a pure function: TLC is enumerator and reference evaluator there (stated as such).',
+    TECH)
